@@ -1,6 +1,7 @@
 package main
 
 import (
+	"net/http/httptest"
 	"bytes"
 	"context"
 	"crypto/rand"
@@ -111,6 +112,7 @@ func c05(x *runCtx) {
 	}
 	x.c.flush()
 	c05Protocol(x, r)
+	c05RejectionSticks(x)
 }
 
 func c05Message(x *runCtx, r *mrand.Rand, id kex.CipherSuiteID) {
@@ -523,6 +525,70 @@ func c05Protocol(x *runCtx, r *mrand.Rand) {
 					Input: fmt.Sprintf("%s: TO2.DeviceServiceInfoReady 82f6190514 sent in the clear (handler.MaxContentLength=-1 and Content-Length unknown: %v)", input, unlimited), Impl: res, PropertyFails: true})
 			}
 		}
+	}
+}
+
+// c05RejectionSticks: on the SQLite backend (whose operations honour context cancellation) a tampered tunnel message
+// arrives from a sender that hangs up with its last byte. The rejection must still end the session: the genuine message,
+// sent afterwards under the same token, is not served.
+func c05RejectionSticks(x *runCtx) {
+	ctx := context.Background()
+	for _, cipher := range []kex.CipherSuiteID{kex.A128GcmCipher, kex.CoseAes128CtrCipher} {
+		cw := newC19World("sqlite")
+		k := lab.KindByName("P-256")
+		d, err := cw.w.NewDevice(ctx, k, protocol.X509KeyEnc, "dev1", nil)
+		if err != nil {
+			fatal("DI (sqlite): %v", err)
+		}
+		ov, err := cw.back.RemoveVoucher(ctx, d.Cred.GUID)
+		if err != nil {
+			fatal("voucher (sqlite): %v", err)
+		}
+		ext, err := lab.ExtendTo(ov, k, "mfg", "own1", false)
+		if err != nil {
+			fatal("extend: %v", err)
+		}
+		if err := cw.back.AddVoucher(ctx, ext); err != nil {
+			fatal("store (sqlite): %v", err)
+		}
+		cw.w.Reuse = true
+		cw.w.Modules = func(context.Context, []string) []lab.NamedModule {
+			return []lab.NamedModule{{Name: "ping", Mod: &lab.PingOwner{Body: []byte("c05")}}}
+		}
+		var genuine []byte
+		var auth string
+		tap := &lab.Tap{Request: func(mt uint8, hdr http.Header, body *[]byte) error {
+			if mt == 68 && genuine == nil {
+				genuine = append([]byte{}, *body...)
+				auth = hdr.Get("Authorization")
+				*body = flipBit(*body, 8*(len(*body)-3))
+				hdr.Set("X-Lab-Cancel-At-EOF", "1")
+			}
+			return nil
+		}}
+		res := step(func() error {
+			_, err := cw.w.TO2(ctx, d, nil, lab.TO2Opts{Kex: kex.ECDH256Suite, Cipher: cipher, Reuse: true,
+				Modules: map[string]serviceinfo.DeviceModule{"ping": &lab.PingDevice{}}}, tap)
+			return err
+		})
+		input := fmt.Sprintf("sqlite backend, P-256 ECDH256 %s: TO2.DeviceServiceInfo with one ciphertext bit flipped, sender disconnects with the last byte; then the genuine message under the same token", cipher)
+		x.r.Case(input, true, "rejection-sticks")
+		if genuine != nil {
+			if res != "fail" {
+				x.r.Violate(rep.Violation{Kind: "oracle", Check: "C05.rejected-message-fails-run", Signature: "C05.run-continued-after-tampered-message:sender-disconnected",
+					Input: input, Impl: res, PropertyFails: true})
+			}
+			req := httptest.NewRequest(http.MethodPost, "/fdo/101/msg/68", bytes.NewReader(genuine))
+			req.Header.Set("Authorization", auth)
+			req.Header.Set("Content-Type", "application/cbor")
+			rec := httptest.NewRecorder()
+			cw.w.Handler.ServeHTTP(rec, req)
+			if mt := rec.Header().Get("Message-Type"); mt != "255" {
+				x.r.Violate(rep.Violation{Kind: "oracle", Check: "C05.rejected-message-fails-run", Signature: "C05.session-alive-after-rejected-message:sender-disconnected",
+					Input: input, Impl: "the genuine message sent afterwards was answered with Message-Type " + mt, PropertyFails: true})
+			}
+		}
+		cw.close()
 	}
 }
 
